@@ -64,6 +64,7 @@ template <class A> struct RevWalk<A, true> { template <class F, class P, class Q
 
 template <class A> void run(Ctx& ctx) {
     const Program& P = *ctx.prog; g_hash_mode = (int)P.knob("hash_mode");
+    struct KeepPreemptiblePasses { KeepPreemptiblePasses() { vh::g_atomic_eager_pass = false; } ~KeepPreemptiblePasses() { vh::g_atomic_eager_pass = true; } } keep_passes;   // C19 classifies the guard-copy race itself
     struct Seen { long key, inst; uint64_t step; };
     std::map<long, long> inst_key;            // every instance id ever created -> its key
     std::vector<std::vector<Seen>> walks;     // one entry per ITER op
